@@ -364,6 +364,167 @@ func checkAggregates(c *RunCtx, exp *experiment.Experiment, ctx func() string) {
 			c.Fail("aggregate:Trial.Solved", "trial %d: Solved() = %t, the recorded generations say %t\n%s", ti, gotSolved, trSolved, ctx())
 		}
 	}
+	// ----- per-trial series and searches (added in wave 7): champion ages / complexities per generation, the per-generation
+	// averages, the trial's winner statistics, and the best-organism searches with and without the solvers-only filter -----
+	allHaveChampion := true
+	for ti := range exp.Trials {
+		tr := &exp.Trials[ti]
+		for gi := range tr.Generations {
+			if tr.Generations[gi].Champion == nil {
+				allHaveChampion = false
+			}
+		}
+	}
+	cxOf := func(ch *genetics.Organism) float64 {
+		v := 0.0
+		c.Lib("Organism.Phenotype", func() {
+			if ph, err := ch.Phenotype(); err == nil {
+				v = float64(ph.NodeCount() + ph.LinkCount())
+			}
+		})
+		return v
+	}
+	bestOf := func(tr *experiment.Trial, onlySolved bool) (float64, int) {
+		best, n := math.Inf(-1), 0
+		for gi := range tr.Generations {
+			g := &tr.Generations[gi]
+			if g.Champion == nil || (onlySolved && !g.Solved) {
+				continue
+			}
+			n++
+			if g.Champion.Fitness > best {
+				best = g.Champion.Fitness
+			}
+		}
+		return best, n
+	}
+	if allHaveChampion {
+		for ti := range exp.Trials {
+			tr := &exp.Trials[ti]
+			var ages, cxs, af, aa, ac experiment.Floats
+			c.Lib("Trial per-generation series", func() {
+				ages, cxs = tr.ChampionSpeciesAges(), tr.ChampionsComplexities()
+				af, aa, ac = tr.Average()
+			})
+			if len(ages) != len(tr.Generations) || len(cxs) != len(tr.Generations) || len(af) != len(tr.Generations) || len(aa) != len(tr.Generations) || len(ac) != len(tr.Generations) {
+				c.Fail("aggregate:length", "trial %d: the per-generation series do not have one entry per generation\n%s", ti, ctx())
+			}
+			for gi := range tr.Generations {
+				g := &tr.Generations[gi]
+				age := 0.0
+				if g.Champion.Species != nil {
+					age = float64(g.Champion.Species.Age)
+				}
+				if ages[gi] != age {
+					c.Fail("aggregate:ChampionSpeciesAges", "trial %d: ChampionSpeciesAges()[%d] = %v, the champion of that generation belongs to a species of age %v\n%s", ti, gi, ages[gi], age, ctx())
+				}
+				if want := cxOf(g.Champion); cxs[gi] != want {
+					c.Fail("aggregate:ChampionsComplexities", "trial %d: ChampionsComplexities()[%d] = %v, the champion's phenotype has nodes+links = %v\n%s", ti, gi, cxs[gi], want, ctx())
+				}
+				for _, x := range []struct {
+					n   string
+					got float64
+					ser experiment.Floats
+				}{{"fitness", af[gi], g.Fitness}, {"age", aa[gi], g.Age}, {"complexity", ac[gi], g.Complexity}} {
+					if want := refSeries(x.ser).mean; !eqStat(x.got, want) {
+						c.Fail("aggregate:Trial.Average", "trial %d: Average() %s[%d] = %v, the recorded series %v has mean %v\n%s", ti, x.n, gi, x.got, x.ser, want, ctx())
+					}
+				}
+			}
+			// the trial's winner statistics: those of its first solved generation (nothing is said about unsolved trials
+			// that have generations; a trial without generations reports -1)
+			cp := *tr
+			cp.WinnerGeneration = nil
+			var wn, wg, we, wd int
+			c.Lib("Trial.WinnerStatistics", func() { wn, wg, we, wd = cp.WinnerStatistics() })
+			for gi := range tr.Generations {
+				if g := &tr.Generations[gi]; g.Solved {
+					if wn != g.WinnerNodes || wg != g.WinnerGenes || we != g.WinnerEvals || wd != g.Diversity {
+						c.Fail("aggregate:Trial.WinnerStatistics", "trial %d: WinnerStatistics() = (%d, %d, %d, %d), its first solved generation (#%d in the record) holds (%d, %d, %d, %d)\n%s", ti, wn, wg, we, wd, gi, g.WinnerNodes, g.WinnerGenes, g.WinnerEvals, g.Diversity, ctx())
+					}
+					break
+				}
+			}
+			if len(tr.Generations) == 0 && (wn != -1 || wg != -1 || we != -1 || wd != -1) {
+				c.Fail("aggregate:Trial.WinnerStatistics", "trial %d has no generations but WinnerStatistics() = (%d, %d, %d, %d), expected -1 each\n%s", ti, wn, wg, we, wd, ctx())
+			}
+			for _, only := range []bool{false, true} {
+				want, n := bestOf(tr, only)
+				var org *genetics.Organism
+				var ok bool
+				c.Lib("Trial.BestOrganism", func() { org, ok = tr.BestOrganism(only) })
+				if ok != (n > 0) || (ok && org == nil) {
+					c.Fail("aggregate:Trial.BestOrganism", "trial %d: BestOrganism(onlySolvers=%t) found=%t (organism nil: %t) with %d candidate champions recorded\n%s", ti, only, ok, org == nil, n, ctx())
+				}
+				if ok && org.Fitness != want {
+					c.Fail("aggregate:Trial.BestOrganism", "trial %d: BestOrganism(onlySolvers=%t) has fitness %v, the best of the %d candidate champions has %v\n%s", ti, only, org.Fitness, n, want, ctx())
+				}
+				if ok {
+					member := false
+					for gi := range tr.Generations {
+						if g := &tr.Generations[gi]; g.Champion == org && (!only || g.Solved) {
+							member = true
+						}
+					}
+					if !member {
+						c.Fail("aggregate:Trial.BestOrganism", "trial %d: BestOrganism(onlySolvers=%t) returned an organism that is not a recorded champion of the candidates\n%s", ti, only, ctx())
+					}
+				}
+				if only && n > 0 {
+					c.Count("probe.best_among_solvers")
+				}
+			}
+		}
+		for _, only := range []bool{false, true} {
+			best, cands := math.Inf(-1), 0
+			for ti := range exp.Trials {
+				if b, n := bestOf(&exp.Trials[ti], only); n > 0 {
+					cands++
+					if b > best {
+						best = b
+					}
+				}
+			}
+			var org *genetics.Organism
+			var idx int
+			var ok bool
+			c.Lib("Experiment.BestOrganism", func() { org, idx, ok = exp.BestOrganism(only) })
+			if ok != (cands > 0) || (ok && org == nil) {
+				c.Fail("aggregate:Experiment.BestOrganism", "BestOrganism(onlySolvers=%t) found=%t with %d trials that have candidate champions\n%s", only, ok, cands, ctx())
+			}
+			if ok {
+				if org.Fitness != best {
+					c.Fail("aggregate:Experiment.BestOrganism", "BestOrganism(onlySolvers=%t) has fitness %v, the best candidate champion over all trials has %v\n%s", only, org.Fitness, best, ctx())
+				}
+				okTrial := idx >= 0 && idx < nT
+				if okTrial {
+					b, n := bestOf(&exp.Trials[idx], only)
+					okTrial = n > 0 && b == best
+				}
+				if !okTrial {
+					c.Fail("aggregate:Experiment.BestOrganism", "BestOrganism(onlySolvers=%t) names trial %d, which does not hold a candidate champion of the best fitness %v\n%s", only, idx, best, ctx())
+				}
+			} else if idx != -1 {
+				c.Fail("aggregate:Experiment.BestOrganism", "BestOrganism(onlySolvers=%t) found nothing but names trial %d instead of -1\n%s", only, idx, ctx())
+			}
+		}
+	} else {
+		c.Count("observe.record_without_champion")
+	}
+	{
+		var got float64
+		c.Lib("Experiment.AvgGenerationsPerTrial", func() { got = exp.AvgGenerationsPerTrial() })
+		want := 0.0
+		for _, e := range wantEpochs {
+			want += e
+		}
+		if nT > 0 {
+			want /= float64(nT)
+		}
+		if !eqStat(got, want) {
+			c.Fail("aggregate:AvgGenerationsPerTrial", "AvgGenerationsPerTrial() = %v, the %d trials record %v generations on average\n%s", got, nT, want, ctx())
+		}
+	}
 	var gotSolvedN int
 	var gotRate float64
 	var gotBestFit, gotBestAge, gotBestCx, gotDiv, gotEpochs experiment.Floats
